@@ -1,6 +1,111 @@
-import Driver.Common
-namespace Rtp.Kinds.Ext
-open Rtp Rtp.Proto
+/-
+  Driver/Kinds/Ext.lean — case kinds of group `ext` (C17, C18).
 
-def handlers : List (String × Handler) := []
+  C17, per codec X ∈ {audio, tcc, playout, abssend, abscapture}, value tokens
+      audio `<level> <voice>` · tcc `<seq>` · playout `<min> <max>` · abssend `<ts>` ·
+      abscapture `<ts> <opt int64>`:
+    c17.X.m   <value> <prev-receiver value>        => <res bytes> <opt (<res-unit> <value>)>
+              Marshal(value); if it succeeded, Unmarshal of the produced bytes into a receiver
+              holding `prev`, its result and the receiver afterwards
+    c17.X.u   <prev value> <list bytes> <bytes>    => <res-unit> <value>
+              a receiver holding `prev` decodes the listed byte strings (results ignored), then the
+              input under test: its result and the receiver afterwards
+  C18 (instants and durations are int64 nanoseconds; every observation is `ok …` | `panic`):
+    c18.capture   <t>            => <Timestamp u64> <CaptureTime().UnixNano()>
+    c18.ntp2time  <ntp u64>      => <CaptureTime().UnixNano() of Timestamp = ntp>      (correspondence only)
+    c18.offset    <t> <d>        => <Timestamp> <raw offset> <duration> <opt duration via the wire>
+    c18.offdur    <opt raw>      => <opt duration>                                     (correspondence only)
+    c18.estimate  <send> <delay> => <NewAbsSendTime(send).Timestamp> <24-bit ts via the wire> <Estimate(send+delay).UnixNano()>
+    c18.estraw    <ts u64> <recv> => <Estimate(recv).UnixNano()>                        (correspondence only)
+-/
+import Driver.Common
+import Rtp.Model.ExtCodecs
+import Rtp.Model.Ntp
+import Rtp.Pred.C17
+import Rtp.Pred.C18
+namespace Rtp.Kinds.Ext
+open Rtp Rtp.Proto Rtp.Model.ExtCodecs Rtp.Pred.C17
+
+/-! ### C17 -/
+
+def rdAudio : Rd AudioLevel := do let l ← Rd.u8; let v ← Rd.bool; pure ⟨l, v⟩
+def rdTcc : Rd TransportCC := do let s ← Rd.u16; pure ⟨s⟩
+def rdPlayout : Rd PlayoutDelay := do let a ← Rd.u16; let b ← Rd.u16; pure ⟨a, b⟩
+def rdAbsSend : Rd AbsSendTime := do let t ← Rd.u64; pure ⟨t⟩
+def rdAbsCapture : Rd AbsCaptureTime := do let t ← Rd.u64; let o ← Rd.opt Rd.i64; pure ⟨t, o⟩
+
+def rdUn {σ} (rd : Rd σ) : Rd (Un σ) := do let r ← Rd.resC Rd.unit; let s ← rd; pure ⟨r, s⟩
+
+def rdMObs {σ} (rd : Rd σ) : Rd (MObs σ) := do
+  let out ← Rd.resC Rd.bytes
+  let rt ← Rd.opt (rdUn rd)
+  pure ⟨out, rt⟩
+
+def marshalKind {σ} [DecidableEq σ] [Repr σ] (rd : Rd σ) (c : Codec σ) (S : ExtSpec σ) : Handler :=
+  mkHandler (do let v ← rd; let p ← rd; pure (v, p)) (rdMObs rd)
+    (fun (v, p) => modelM c v p)
+    (fun (v, _) o => marshalOk S v o)
+    (fun (v, _) => S.inRange v)
+
+def unmarshalKind {σ} [DecidableEq σ] [Repr σ] (rd : Rd σ) (c : Codec σ) (S : ExtSpec σ) : Handler :=
+  mkHandler (do let p ← rd; let h ← Rd.list Rd.bytes; let b ← Rd.bytes; pure (p, h, b)) (rdUn rd)
+    (fun (p, h, b) => modelU c p h b)
+    (fun (_, _, b) o => unmarshalOk S b o)
+    (fun (_, _, b) => (S.decode b).isSome)
+
+/-! ### C18 -/
+open Rtp.Model.Ntp Rtp.Pred.C18
+
+/-- every C18 observation is `ok …` or `panic` (a panic of the real code is an observation) -/
+def okPred {α} (p : α → Bool) : Res α → Bool
+  | .ok a => p a
+  | _ => false
+
+def capture : Handler :=
+  mkHandler Rd.i64 (Rd.res (do let ts ← Rd.u64; let b ← Rd.i64; pure (⟨ts, b⟩ : CaptureObs)))
+    (fun t => let ts := captureTimestamp t; .ok ⟨ts, captureTime ts⟩)
+    (fun t => okPred (captureOk t))
+    (fun t => instantOk t.toInt)
+
+def ntp2time : Handler :=
+  mkHandler Rd.u64 (Rd.res Rd.i64) (fun t => .ok (captureTime t)) (fun _ _ => true) (fun _ => false)
+
+def offset : Handler :=
+  mkHandler (do let t ← Rd.i64; let d ← Rd.i64; pure (t, d))
+    (Rd.res (do let ts ← Rd.u64; let raw ← Rd.i64; let b ← Rd.i64; let w ← Rd.opt Rd.i64
+                pure (ts, (⟨raw, b, w⟩ : OffsetObs))))
+    (fun (t, d) => let raw := encodeOffset d
+      .ok (captureTimestamp t, ⟨raw, decodeOffset raw, some (decodeOffset raw)⟩))
+    (fun (_, d) => okPred (fun (_, o) => offsetOkObs d o))
+    (fun (_, d) => offsetOk d.toInt)
+
+def offdur : Handler :=
+  mkHandler (Rd.opt Rd.i64) (Rd.res (Rd.opt Rd.i64)) (fun o => .ok (o.map decodeOffset))
+    (fun _ _ => true) (fun _ => false)
+
+def estimateK : Handler :=
+  mkHandler (do let s ← Rd.i64; let d ← Rd.i64; pure (s, d))
+    (Rd.res (do let ts ← Rd.u64; let t24 ← Rd.u64; let e ← Rd.i64; pure (ts, (⟨t24, e⟩ : EstimateObs))))
+    (fun (s, d) => let ts := sendTimestamp s
+      .ok (ts, ⟨ts &&& 0xFFFFFF, estimateNs (ts &&& 0xFFFFFF) (s + d)⟩))
+    (fun (s, d) => okPred (fun (_, o) => estimateOk s d o))
+    (fun (s, d) => estimateWF s d)
+
+def estraw : Handler :=
+  mkHandler (do let ts ← Rd.u64; let r ← Rd.i64; pure (ts, r)) (Rd.res Rd.i64)
+    (fun (ts, r) => .ok (estimateNs ts r)) (fun _ _ => true) (fun _ => false)
+
+def handlers : List (String × Handler) :=
+  [("c17.audio.m", marshalKind rdAudio audio audioSpec),
+   ("c17.audio.u", unmarshalKind rdAudio audio audioSpec),
+   ("c17.tcc.m", marshalKind rdTcc tcc tccSpec),
+   ("c17.tcc.u", unmarshalKind rdTcc tcc tccSpec),
+   ("c17.playout.m", marshalKind rdPlayout playout playoutSpec),
+   ("c17.playout.u", unmarshalKind rdPlayout playout playoutSpec),
+   ("c17.abssend.m", marshalKind rdAbsSend absSend absSendSpec),
+   ("c17.abssend.u", unmarshalKind rdAbsSend absSend absSendSpec),
+   ("c17.abscapture.m", marshalKind rdAbsCapture absCapture absCaptureSpec),
+   ("c17.abscapture.u", unmarshalKind rdAbsCapture absCapture absCaptureSpec),
+   ("c18.capture", capture), ("c18.ntp2time", ntp2time), ("c18.offset", offset),
+   ("c18.offdur", offdur), ("c18.estimate", estimateK), ("c18.estraw", estraw)]
 end Rtp.Kinds.Ext
